@@ -68,6 +68,7 @@ type c14IGen struct {
 	dep    string   // package name of the imported package ("" = none)
 	usedI  bool     // the current file used the inlined package
 	usedD  bool     // the current file used the imported package
+	small  bool     // this program: the temporaries of an inlined call in a package-level initialiser are what decides the frame
 }
 
 func (g *c14IGen) f(format string, a ...any) { fmt.Fprintf(g.sb, format+"\n", a...) }
@@ -198,13 +199,13 @@ func (g *c14IGen) form(ind, acc string, want int) int {
 			g.f("%s%s, _, %s := %s(%s)", ind, a, c, g.three, g.e())
 			g.fold(ind, acc, a+" + "+c+"*7")
 			return 2
-		case k == 12 && g.inl != "": // inlined call: its parameter with a call and its own locals land in this frame
+		case k == 12 && g.inl != "" && !g.small: // inlined call: its parameter with a call and its own locals land in this frame
 			g.usedI = true
 			a := g.v()
 			g.f("%s%s := %s.Mix(%d, %s(%d))", ind, a, g.inl, 1+r.intn(50), g.note2, 300+r.intn(90))
 			g.fold(ind, acc, a)
 			return 4
-		case k == 13 && g.inl != "" && want >= 2:
+		case k == 13 && g.inl != "" && want >= 2 && !g.small:
 			g.usedI = true
 			g.fold(ind, acc, fmt.Sprintf("%s.Tri(%s(%d))", g.inl, g.note2, 400+r.intn(90)))
 			return 3
@@ -284,8 +285,8 @@ func (g *c14IGen) body(ind string, k int, tag int) int {
 }
 
 type c14IDecl struct {
-	text   string
-	global bool // globals keep their relative order
+	text  string
+	class int // 0: anything else (shuffled); 1: package-level variable, 2: init() — both keep their relative order
 }
 
 // c14InitShape draws the local counts of nb bodies: independent, or with the strict maximum at a chosen place
@@ -336,15 +337,22 @@ func (g *c14IGen) genPackage(name string, main bool, nfiles int, inits []int, sh
 	perFile := make([][]c14IDecl, nfiles)
 	used := make([][2]bool, nfiles) // imports: inl, dep
 	var readParts []string          // expressions of Read()
-	add := func(fi int, global bool, f func()) {
+	addc := func(fi int, class int, f func()) {
 		old := g.sb
 		g.sb = &strings.Builder{}
 		g.usedI, g.usedD = false, false
 		f()
-		perFile[fi] = append(perFile[fi], c14IDecl{text: g.sb.String(), global: global})
+		perFile[fi] = append(perFile[fi], c14IDecl{text: g.sb.String(), class: class})
 		used[fi][0] = used[fi][0] || g.usedI
 		used[fi][1] = used[fi][1] || g.usedD
 		g.sb = old
+	}
+	add := func(fi int, global bool, f func()) {
+		if global {
+			addc(fi, 1, f)
+		} else {
+			addc(fi, 0, f)
+		}
 	}
 	// ---- fixed declarations of the first file
 	add(0, false, func() {
@@ -407,6 +415,9 @@ func (g *c14IGen) genPackage(name string, main bool, nfiles int, inits []int, sh
 		if fi == 0 && !noGlobals && ng == 0 {
 			ng = 1
 		}
+		if fi == 0 && g.small && main {
+			ng = max(ng, 2)
+		}
 		for i := 0; i < ng; i++ {
 			x := fmt.Sprintf("%sG%s%d", strings.ToUpper(pre), letters[fi], i)
 			prev := "3"
@@ -417,6 +428,8 @@ func (g *c14IGen) genPackage(name string, main bool, nfiles int, inits []int, sh
 			kind := r.intn(18)
 			if len(g.ints) == 0 {
 				kind = r.intn(2) * 3 // the package needs an accumulator first
+			} else if g.small && main && fi == 0 && i == 1 {
+				kind = 7
 			}
 			add(fi, true, func() {
 				isInt := true
@@ -563,7 +576,7 @@ func (g *c14IGen) genPackage(name string, main bool, nfiles int, inits []int, sh
 			counts = counts[1:]
 			t := tag
 			tag++
-			add(fi, false, func() {
+			addc(fi, 2, func() {
 				g.f("func init() {")
 				n := g.body("\t", k, t)
 				if hasNR && r.chance(20) {
@@ -613,6 +626,36 @@ func (g *c14IGen) genPackage(name string, main bool, nfiles int, inits []int, sh
 		g.f("\treturn r")
 		g.f("}")
 	})
+	// Known finding F157: only the LAST init() of a package is searched for the functions and variables it uses; what
+	// an earlier init() alone refers to is dropped (a function: the program is rejected; a variable: its initialiser is
+	// not run). Keep() — exported, hence a root of that search — mentions everything the bodies may use.
+	if !c14Allow("initusage") {
+		add(r.intn(nfiles), false, func() {
+			g.f("func Keep() int {")
+			g.f("\tk := 0")
+			for _, x := range g.ints {
+				g.f("\tk += %s %% 3", x)
+			}
+			for _, x := range g.slices {
+				g.f("\tk += len(%s)", x)
+			}
+			if !noGlobals {
+				g.f("\tk += %s(1)", g.note2)
+			}
+			g.f("\tt1, t2 := %s(1)", g.two)
+			g.f("\tt3, t4, t5 := %s(1)", g.three)
+			g.f("\tk += t1 + t2 + t3 + t4 + t5 + %s(1)", g.big)
+			if hasNR {
+				g.f("\tk += %snrv(1)", pre)
+			}
+			if g.dep != "" {
+				g.usedD = true
+				g.f("\tk += %s.Keep() + %s.Bump(1)", g.dep, g.dep)
+			}
+			g.f("\treturn k")
+			g.f("}")
+		})
+	}
 	if !main {
 		add(r.intn(nfiles), false, func() {
 			g.f("func Bump(k int) int {")
@@ -629,11 +672,14 @@ func (g *c14IGen) genPackage(name string, main bool, nfiles int, inits []int, sh
 	files = map[string]string{}
 	for fi := 0; fi < nfiles; fi++ {
 		ds := perFile[fi]
-		var globals, others []c14IDecl
+		var globals, inits, others []c14IDecl
 		for _, d := range ds {
-			if d.global {
+			switch d.class {
+			case 1:
 				globals = append(globals, d)
-			} else {
+			case 2:
+				inits = append(inits, d)
+			default:
 				others = append(others, d)
 			}
 		}
@@ -656,11 +702,16 @@ func (g *c14IGen) genPackage(name string, main bool, nfiles int, inits []int, sh
 		if fi == 0 {
 			sb.WriteString(ds[0].text + "\n")
 		}
-		for len(globals)+len(others) > 0 {
-			if len(others) == 0 || (len(globals) > 0 && r.intn(len(globals)+len(others)) < len(globals)) {
+		for len(globals)+len(inits)+len(others) > 0 {
+			k := r.intn(len(globals) + len(inits) + len(others))
+			switch {
+			case k < len(globals):
 				sb.WriteString(globals[0].text + "\n")
 				globals = globals[1:]
-			} else {
+			case k < len(globals)+len(inits):
+				sb.WriteString(inits[0].text + "\n")
+				inits = inits[1:]
+			default:
 				sb.WriteString(others[0].text + "\n")
 				others = others[1:]
 			}
@@ -719,6 +770,12 @@ func c14InitGen(r *rng, pkg string) c14InitInput {
 		nb += k
 	}
 	counts := c14InitShape(r, nb)
+	if hasInl && r.chance(25) { // few locals in every body: the inlined call of a package-level initialiser needs more
+		g.small = true
+		for i := range counts {
+			counts[i] = r.intn(3)
+		}
+	}
 	depDeploy := hasDep && r.chance(35)
 	mainDeploy := r.chance(50)
 	in.Deploy = depDeploy || mainDeploy
